@@ -209,7 +209,8 @@ class GlsaDirSet(GenericEquality):
             restrictions.append(
                 atom_restricts.VersionMatch(restrict, base.version, rev=base.revision),
             )
-        if slot:
+        # slot="*" is the format's way of saying any slot
+        if slot and slot != "*":
             restrictions.append(atom_restricts.SlotDep(slot))
         return packages.AndRestriction(*restrictions, negate=negate)
 
